@@ -306,7 +306,8 @@ pub fn check_content(c: &mut Case, name: &str, m: &RefArchive, nvariants: usize)
         }
     }
     // re-parse through the library
-    match c.lib("BinArchive::from_bytes", || BinArchive::from_bytes(&img, endian(m.be))) {
+    let img_t = crate::monitor::tight(&img);
+    match c.lib("BinArchive::from_bytes", || BinArchive::from_bytes(&img_t, endian(m.be))) {
         None => {}
         Some(Err(e)) => c.fail(
             "reparse_err",
@@ -375,7 +376,8 @@ pub fn check_content(c: &mut Case, name: &str, m: &RefArchive, nvariants: usize)
         if nontrivial {
             c.nontrivial(fp0 ^ crate::prng::fnv(&v));
         }
-        match c.lib("BinArchive::from_bytes(variant)", || BinArchive::from_bytes(&v, endian(m.be))) {
+        let v_t = crate::monitor::tight(&v);
+        match c.lib("BinArchive::from_bytes(variant)", || BinArchive::from_bytes(&v_t, endian(m.be))) {
             None => {}
             Some(Err(e)) => c.fail(
                 "variant_err",
